@@ -37,6 +37,8 @@ type qcCase struct {
 	method string
 	cfg    []uint32
 	skip   map[uint32]bool
+	empty  map[uint32]bool // per-node function returns a valid but empty message for these nodes
+	burst  bool            // all answers are released at once (arrival order decided by the scheduler)
 	qfKind string
 	k      int64
 	arr    []arrival
@@ -77,11 +79,25 @@ func (c *qcCase) line() string {
 	if skip == "" {
 		skip = "-"
 	}
-	return fmt.Sprintf("qc id=%d m=%s x=%d qf=%s:%d arr=%s cfg=%s skip=%s", c.id, c.method, c.expected(), c.qfKind, c.k, arr, ids(c.cfg), skip)
+	var em []uint32
+	for _, n := range c.cfg {
+		if c.empty[n] {
+			em = append(em, n)
+		}
+	}
+	empty := ids(em)
+	if empty == "" {
+		empty = "-"
+	}
+	b := 0
+	if c.burst {
+		b = 1
+	}
+	return fmt.Sprintf("qc id=%d m=%s x=%d qf=%s:%d arr=%s cfg=%s skip=%s empty=%s burst=%d", c.id, c.method, c.expected(), c.qfKind, c.k, arr, ids(c.cfg), skip, empty, b)
 }
 
 func parseQC(line string) (*qcCase, error) {
-	c := &qcCase{skip: map[uint32]bool{}}
+	c := &qcCase{skip: map[uint32]bool{}, empty: map[uint32]bool{}}
 	for _, f := range strings.Fields(line)[1:] {
 		kv := strings.SplitN(f, "=", 2)
 		if len(kv) != 2 {
@@ -96,16 +112,21 @@ func parseQC(line string) (*qcCase, error) {
 			p := strings.SplitN(kv[1], ":", 2)
 			c.qfKind = p[0]
 			c.k, _ = strconv.ParseInt(p[1], 10, 64)
-		case "cfg", "skip":
+		case "burst":
+			c.burst = kv[1] == "1"
+		case "cfg", "skip", "empty":
 			if kv[1] == "-" {
 				continue
 			}
 			for _, x := range strings.Split(kv[1], ".") {
 				v, _ := strconv.Atoi(x)
-				if kv[0] == "cfg" {
+				switch kv[0] {
+				case "cfg":
 					c.cfg = append(c.cfg, uint32(v))
-				} else {
+				case "skip":
 					c.skip[uint32(v)] = true
+				default:
+					c.empty[uint32(v)] = true
 				}
 			}
 		case "arr":
@@ -162,7 +183,7 @@ func qfEval(kind string, k int64, vals []int64) (int64, bool) {
 }
 
 func genQC(r *rand.Rand, id, maxN int, thorough bool) *qcCase {
-	c := &qcCase{id: id, skip: map[uint32]bool{}}
+	c := &qcCase{id: id, skip: map[uint32]bool{}, empty: map[uint32]bool{}}
 	all := append(append([]string{}, qcSync...), qcAsync...)
 	c.method = all[r.Intn(len(all))]
 	info := puppet.Info[c.method]
@@ -183,6 +204,13 @@ func genQC(r *rand.Rand, id, maxN int, thorough bool) *qcCase {
 				if r.Intn(3) == 0 {
 					c.skip[x] = true
 				}
+			}
+		}
+	}
+	if info.PerNode && r.Intn(3) == 0 {
+		for _, x := range c.cfg {
+			if !c.skip[x] && r.Intn(3) == 0 {
+				c.empty[x] = true
 			}
 		}
 	}
@@ -225,7 +253,14 @@ func genQC(r *rand.Rand, id, maxN int, thorough bool) *qcCase {
 	}
 	// context end: nowhere, at the start, or right after a reply arrival (so that its
 	// position relative to consumed arrivals is observable, see DESIGN 5/C02)
-	if r.Intn(3) == 0 && !info.EmptyIn {
+	if r.Intn(5) == 0 {
+		// burst: no context end; threshold quorum function (its verdict does not depend on the order)
+		c.burst = true
+		c.qfKind = "thr"
+		c.k = int64(r.Intn(x + 2))
+		return c
+	}
+	if r.Intn(3) == 0 && !info.EmptyIn && len(c.empty) == 0 {
 		pos := []int{0}
 		for i, a := range c.arr {
 			if a.kind == 'r' {
@@ -299,6 +334,10 @@ func qcMain(args []string) {
 			}
 			defer sh.close()
 			for c := range ch {
+				if sum.tooMany() {
+					sum.count("skipped-after-many-mismatches")
+					continue
+				}
 				e, ok := exp[strconv.Itoa(c.id)]
 				if !ok {
 					sum.mismatch(Mismatch{Property: "C02", Case: c.line(), Expected: "driver output", Observed: "none", Detail: "the Lean driver rejected the case"})
@@ -342,6 +381,10 @@ var qcCorpus = []string{
 	"qc id=0 m=QuorumCallAsync x=3 qf=thr:2 arr=e1:14,r2:2,c,r3:1 cfg=1.2.3 skip=-",
 	"qc id=0 m=QuorumCallCustomReturnType x=2 qf=maj:2 arr=r1:1,r2:1 cfg=1.2 skip=-",
 	"qc id=0 m=QuorumCall x=2 qf=thr:2 arr=c,r1:1,r2:1 cfg=1.2 skip=-",
+	"qc id=0 m=QuorumCall x=3 qf=thr:2 arr=r1:1,r2:2,e3:5 cfg=1.2.3 skip=- empty=- burst=1",
+	"qc id=0 m=QuorumCallAsync x=4 qf=thr:3 arr=r1:1,r2:2,r4:0,e3:5 cfg=1.2.3.4 skip=- empty=- burst=1",
+	"qc id=0 m=QuorumCallPerNodeArg x=3 qf=thr:3 arr=r1:1,r2:2,r3:3 cfg=1.2.3 skip=- empty=2",
+	"qc id=0 m=QuorumCallAsyncCombo x=2 qf=thr:2 arr=r1:1,r3:3 cfg=1.2.3 skip=2 empty=1.3",
 }
 
 func runQC(sh *shard, c *qcCase, expLine string, sum *sumT) {
@@ -399,7 +442,7 @@ func runQC(sh *shard, c *qcCase, expLine string, sum *sumT) {
 		scripts[nid] = s
 	}
 	for nid, s := range scripts {
-		if info.EmptyIn {
+		if info.EmptyIn || c.empty[nid] {
 			sh.cl.D.ExpectNext(int(nid-1), c.method, s)
 		} else {
 			sh.cl.D.Expect(int(nid-1), token, s)
@@ -436,10 +479,17 @@ func runQC(sh *shard, c *qcCase, expLine string, sum *sumT) {
 		if c.skip[nid] {
 			return nil
 		}
+		if c.empty[nid] {
+			return &dev.Request{} // a valid message that encodes to zero bytes
+		}
 		return &dev.Request{Value: fmt.Sprintf("%s|0|pn%d", token, nid)}
 	}
 	ctx, cancel := context.WithCancel(context.Background())
 	defer cancel()
+	if c.burst {
+		sh.qs.Delay = func() { time.Sleep(2 * time.Millisecond) }
+		defer func() { sh.qs.Delay = nil }()
+	}
 	resCh := make(chan callResult, 1)
 	var fu future
 	if isAsync {
@@ -465,9 +515,26 @@ func runQC(sh *shard, c *qcCase, expLine string, sum *sumT) {
 			return false
 		}
 	}
+	if c.burst {
+		// wait until every answering handler has its request, then release all answers at once
+		for _, a := range c.arr {
+			if a.kind != 'c' {
+				select {
+				case <-scripts[a.nid].Entered:
+				case <-time.After(5 * time.Second):
+					fail("C06", "handler entered at node "+strconv.Itoa(int(a.nid)), "not entered within 5s", "")
+				}
+			}
+		}
+		for _, a := range c.arr {
+			if a.kind != 'c' {
+				close(scripts[a.nid].Gate)
+			}
+		}
+	}
 	// feed arrivals in order
 	for _, a := range c.arr {
-		if returned() {
+		if returned() || c.burst {
 			break
 		}
 		if a.kind == 'c' {
@@ -545,6 +612,22 @@ func runQC(sh *shard, c *qcCase, expLine string, sum *sumT) {
 			}
 		}
 	}
+	if c.burst {
+		// the arrival order was the scheduler's: compare what does not depend on it
+		canon := func(o string) string {
+			p := strings.Split(o, ":")
+			switch p[0] {
+			case "ok":
+				return "ok"
+			case "inc":
+				ids := strings.Split(p[1], ".")
+				sort.Strings(ids)
+				return "inc:" + strings.Join(ids, ".") + ":" + p[2]
+			}
+			return o
+		}
+		obs, expOut = canon(obs), canon(expOut)
+	}
 	if obs != expOut {
 		d := ""
 		if res.err != nil {
@@ -582,7 +665,21 @@ func runQC(sh *shard, c *qcCase, expLine string, sum *sumT) {
 	if obsLog == "" {
 		obsLog = "-"
 	}
-	if obsLog != expLog {
+	if c.burst {
+		// one invocation per consumed reply, each on a set that grew by exactly one entry
+		prev := 0
+		for i, q := range qlog {
+			if len(q.Replies) != prev+1 {
+				fail("C01", "every invocation sees exactly one new reply", fmt.Sprintf("invocation %d has %d entries after %d", i, len(q.Replies), prev), "log="+obsLog)
+			}
+			prev = len(q.Replies)
+		}
+		if p := strings.Split(obs, ":"); p[0] == "inc" {
+			if n, _ := strconv.Atoi(p[2]); n != len(qlog) {
+				fail("C01", fmt.Sprintf("one quorum-function invocation per successful reply (%d)", n), fmt.Sprintf("%d invocations", len(qlog)), "log="+obsLog)
+			}
+		}
+	} else if obsLog != expLog {
 		fail("C01", "log="+expLog, "log="+obsLog, "")
 	}
 	for _, p := range provenance {
@@ -609,9 +706,19 @@ func runQC(sh *shard, c *qcCase, expLine string, sum *sumT) {
 			fail("C02", "Done()=true after completion", "false", "")
 		}
 		for i := 0; i < 2; i++ {
-			r2 := futureResult(fu)
-			if r2.val != res.val || (r2.err == nil) != (res.err == nil) || (r2.err != nil && r2.err.Error() != res.err.Error()) {
-				fail("C02", "Get stable", "Get changed between invocations", "")
+			again := make(chan callResult, 1)
+			go func() { again <- futureResult(fu) }()
+			select {
+			case r2 := <-again:
+				if r2.val != res.val || (r2.err == nil) != (res.err == nil) || (r2.err != nil && r2.err.Error() != res.err.Error()) {
+					fail("C02", "Get stable", "Get changed between invocations", "")
+				}
+			case <-time.After(2 * time.Second):
+				fail("C02", "Get returns the same outcome on every invocation", "Get blocks after the future has completed", "")
+				i = 2
+			}
+			if !fu.done() {
+				fail("C02", "Done()=true after completion", "false after a Get", "")
 			}
 		}
 	}
@@ -643,7 +750,7 @@ func runQC(sh *shard, c *qcCase, expLine string, sum *sumT) {
 			if info.PerNode {
 				want = fmt.Sprintf("%s|0|pn%d", token, nid)
 			}
-			if info.EmptyIn {
+			if info.EmptyIn || c.empty[nid] {
 				want = ""
 			}
 			if s.GotValue != want {
@@ -721,8 +828,14 @@ func runQC(sh *shard, c *qcCase, expLine string, sum *sumT) {
 	if len(c.skip) > 0 {
 		sum.count("with-skips")
 	}
+	if len(c.empty) > 0 {
+		sum.count("with-empty-per-node-messages")
+	}
+	if c.burst {
+		sum.count("burst")
+	}
 	if nErr > 0 || nSil > 0 || len(c.skip) > 0 || hasCancel {
-		sum.nontrivial(fmt.Sprintf("%v/%v/%v/%d/%s/%d/%v/%v/%s", isAsync, info.PerNode, info.Custom, c.expected(), class, nErr, nSil > 0, hasCancel, c.qfKind))
+		sum.nontrivial(fmt.Sprintf("%v/%v/%v/%d/%s/%d/%v/%v/%s/%v/%v", isAsync, info.PerNode, info.Custom, c.expected(), class, nErr, nSil > 0, hasCancel, c.qfKind, c.burst, len(c.empty) > 0))
 	}
 	sum.sample(caseLine + " => " + expLine)
 }
